@@ -686,6 +686,7 @@ func (p *Policy) BlockAccountInternalDeferrable(ic *interop.Context, hash util.U
 			cache.blockedAccounts = append(cache.blockedAccounts[:i+1], cache.blockedAccounts[i:]...)
 			cache.blockedAccounts[i] = hash
 		}
+		p.candidatesEligibilityChanged(ic.DAO)
 		handleRes(true)
 	}
 
@@ -715,7 +716,17 @@ func (p *Policy) unblockAccount(ic *interop.Context, args []stackitem.Item) stac
 	ic.DAO.DeleteStorageItem(p.ID, key)
 	cache := ic.DAO.GetRWCache(p.ID).(*PolicyCache)
 	cache.blockedAccounts = append(cache.blockedAccounts[:i], cache.blockedAccounts[i+1:]...)
+	p.candidatesEligibilityChanged(ic.DAO)
 	return stackitem.NewBool(true)
+}
+
+// candidatesEligibilityChanged tells NEO that the list of blocked accounts has
+// changed. Blocked candidates are not elected, so cached committee and validators
+// of the next epoch must be recalculated even if no votes have changed.
+func (p *Policy) candidatesEligibilityChanged(d *dao.Simple) {
+	if neo, ok := p.NEO.(*NEO); ok {
+		neo.markVotesChanged(d)
+	}
 }
 
 func (p *Policy) getMaxValidUntilBlockIncrement(ic *interop.Context, _ []stackitem.Item) stackitem.Item {
